@@ -205,6 +205,9 @@ def tlc(tla, cfg, workers=None, simulate=None, depth=None, env=None, timeout=360
     meta = os.path.join(BUILD, "tlc", run_id)
     os.makedirs(meta, exist_ok=True)
     libs = (lib_dirs or []) + [os.path.dirname(tla), os.path.join(SPEC, "lib"), os.path.join(SPEC, "mo"), SPEC]
+    cap = os.environ.get("VERIF_HEAP_CAP", "12g")
+    if int(heap.rstrip("g")) > int(cap.rstrip("g")):
+        heap = cap
     jopts = ["-XX:+UseParallelGC", "-Xmx" + heap, "-DTLA-Library=" + ":".join(libs)]
     if dfs:
         jopts.append("-Dtlc2.tool.queue.IStateQueue=StateDeque")
